@@ -265,7 +265,8 @@ class Exec:
             if op in ('Shl', 'Shr'):
                 y = b.c & 0xffffffff
             r = {'Add': lambda: (x + y) & m, 'Sub': lambda: (x - y) & m, 'Mul': lambda: (x * y) & m, 'BitAnd': lambda: x & y,
-                 'BitOr': lambda: x | y, 'BitXor': lambda: x ^ y, 'Shl': lambda: (x << y) & m, 'Shr': lambda: x >> y}[op]()
+                 'BitOr': lambda: x | y, 'BitXor': lambda: x ^ y, 'Shl': lambda: (x << y) & m, 'Shr': lambda: x >> y,
+                 'Rem': lambda: x % y, 'Div': lambda: x // y}[op]()
             return conc(r, w, signed=a.signed)
         if self.mode == 'BV':
             return self.binop_bv(op, a, b)
@@ -288,8 +289,15 @@ class Exec:
             r = self.match_rot(x, y)
             if r is not None:
                 return self.mk(w, r)
+        if op in ('Rem', 'Div'):
+            return self.mk(w, z3.URem(x, y) if op == 'Rem' else z3.UDiv(x, y))
         t = {'Add': lambda: x + y, 'Sub': lambda: x - y, 'Mul': lambda: x * y, 'BitAnd': lambda: x & y, 'BitOr': lambda: x | y, 'BitXor': lambda: x ^ y}[op]()
-        return self.mk(w, t)
+        r = self.mk(w, t)
+        if op == 'BitAnd':
+            for u, v in ((a, b), (b, a)):
+                if v.c is not None and (v.c & (v.c + 1)) == 0:
+                    r.ub = min(u.ub, v.c + 1)     # x & (2^k - 1) < 2^k: a syntactic bound, used to discharge overflow checks without the solver
+        return r
 
     def binop_int(self, op, a, b):
         w = a.w
@@ -339,6 +347,8 @@ class Exec:
             return [conc(r, w), conc(int(ov), 1)]
         if self.mode == 'BV':
             x, y = self.sym_of(a), self.sym_of(b)
+            if op == 'Mul' and (a.ub - 1) * (b.ub - 1) < (1 << w):
+                return [self.mk(w, x * y), conc(0, 1)]     # both factors carry syntactic bounds (masks): the product cannot overflow
             if op == 'Add':
                 t, ok = x + y, z3.BVAddNoOverflow(x, y, False)
             elif op == 'Sub':
@@ -540,7 +550,7 @@ class Exec:
         if m:
             a, b = [self.operand(fr, x) for x in split_top(m.group(2))]
             return self.checked(m.group(1), a, b)
-        m = re.match(r'^(Lt|Le|Gt|Ge|Eq|Ne|BitAnd|BitOr|BitXor|Shr|Shl|Add|Sub|Mul)\((.+)\)$', rhs)
+        m = re.match(r'^(Lt|Le|Gt|Ge|Eq|Ne|BitAnd|BitOr|BitXor|Shr|Shl|Add|Sub|Mul|Rem|Div)\((.+)\)$', rhs)
         if m:
             a, b = [self.operand(fr, x) for x in split_top(m.group(2))]
             return self.binop(m.group(1), a, b)
